@@ -139,6 +139,9 @@ def run_check(prop, tier, seed, only_cases=None):
         except Exception as e:  # malformed output is itself an observation
             c.obs = None
             c.parse_error = repr(e)
+    if hasattr(prop, "post_run"):
+        dbg = core.build_harness("debug")
+        prop.post_run(cases, lambda lines: core.run_harness(dbg, lines, prop.per_case_timeout))
 
     # 4. oracle on the implementation
     failures = []  # (case, reason)
